@@ -491,20 +491,22 @@ impl Session {
             Some(flow_next_incoming_id) => {
                 // The remote-incoming-window is computed as follows:
                 // next-incoming-id_flow + incoming-window_flow - next-outgoing-id_endpoint
-                self.remote_incoming_window = flow_next_incoming_id
-                    .saturating_add(flow.incoming_window)
-                    .saturating_sub(self.next_outgoing_id);
+                //
+                // Transfer-ids are RFC-1982 serial numbers, so the number of
+                // transfers in flight is computed with wrapping arithmetic
+                // and taken off the advertised window.
+                let in_flight = self.next_outgoing_id.wrapping_sub(*flow_next_incoming_id);
+                self.remote_incoming_window = flow.incoming_window.saturating_sub(in_flight);
             }
             None => {
                 // If the next-incoming-id field of the flow frame is not set,
                 // then remote-incoming-window is computed as follows:
                 // initial-outgoing-id_endpoint + incoming-window_flow -
                 // next-outgoing-id_endpoint
-                self.remote_incoming_window = self
-                    .initial_outgoing_id
-                    .value()
-                    .saturating_add(flow.incoming_window)
-                    .saturating_sub(self.next_outgoing_id);
+                let in_flight = self
+                    .next_outgoing_id
+                    .wrapping_sub(*self.initial_outgoing_id.value());
+                self.remote_incoming_window = flow.incoming_window.saturating_sub(in_flight);
             }
         }
 
